@@ -349,25 +349,41 @@ def rule_sib(c: Ctx) -> RuleResult:
     pd = c.p.func("helpers/parse_link_destination.py:parseLinkDestination")
     pt = c.p.func("helpers/parse_link_title.py:parseLinkTitle")
     users = [c.p.func("rules_block/reference.py:reference"), c.p.func("rules_inline/link.py:link"), c.p.func("rules_inline/image.py:image")]
+    def closure(f: Func) -> list[Func]:
+        """f and the helpers it calls directly (two levels): functions of its own module or of the helpers package other than the
+        shared parsers themselves."""
+        out, todo = [f], [(f, 0)]
+        while todo:
+            g, d = todo.pop()
+            for cs in c.cg.sites.get(g, []):
+                if cs.kind in ("direct", "method") and len(cs.callees) == 1:
+                    h = cs.callees[0]
+                    if h not in out and h not in (pd, pt) and d < 2 and (h.module is f.module or h.module.rel.startswith("helpers/")) \
+                            and h not in users:
+                        out.append(h)
+                        todo.append((h, d + 1))
+        return out
     for f in users:
-        sites = c.cg.sites.get(f, [])
+        fam = closure(f)
+        sites = [cs for g in fam for cs in c.cg.sites.get(g, [])]
         for helper, nm in ((pd, "parseLinkDestination"), (pt, "parseLinkTitle")):
             ok = any(helper in cs.callees and len(cs.callees) == 1 for cs in sites)
             r.add(f"{f.short}|{nm}", c.where(f, f.node), f.short, nm, "discharged" if ok else "violation",
                   f"calls the shared helper {nm}" if ok else f"{f.short} does not call the shared helper {nm}: its notion of a "
                   f"{'destination' if helper is pd else 'title'} can drift from the other two forms")
         # normalizeLink applied to the destination result's .str
-        rd = Reaching(c.cfg(f))
         ok = False
-        for n in own_nodes(f.node):
-            if isinstance(n, ast.Call) and isinstance(n.func, ast.Attribute) and n.func.attr == "normalizeLink" and len(n.args) == 1:
-                a = n.args[0]
-                if isinstance(a, ast.Attribute) and a.attr == "str" and isinstance(a.value, ast.Name):
-                    for d in rd.at_ast(n, a.value.id):
-                        if d.value is not None and isinstance(d.value, ast.Call):
-                            cs = c.cg.site_of.get(d.value)
-                            if cs is not None and pd in cs.callees:
-                                ok = True
+        for g in fam:
+            rd = Reaching(c.cfg(g))
+            for n in own_nodes(g.node):
+                if isinstance(n, ast.Call) and isinstance(n.func, ast.Attribute) and n.func.attr == "normalizeLink" and len(n.args) == 1:
+                    a = n.args[0]
+                    if isinstance(a, ast.Attribute) and a.attr == "str" and isinstance(a.value, ast.Name):
+                        for d in rd.at_ast(n, a.value.id):
+                            if d.value is not None and isinstance(d.value, ast.Call):
+                                cs = c.cg.site_of.get(d.value)
+                                if cs is not None and pd in cs.callees:
+                                    ok = True
         r.add(f"{f.short}|normalizeLink(dest)", c.where(f, f.node), f.short, "normalizeLink(res.str)", "discharged" if ok else "violation",
               "the destination result is normalised with normalizeLink" if ok else
               f"{f.short} does not pass the parsed destination through normalizeLink: the reference form and the inline form of one link differ")
